@@ -1,5 +1,5 @@
 //@inject src/vdaf/poplar1.rs
-//@harness pop_verifier_state_alloc_budget | bounded(input <= 14 bytes; the u32 length header is full-domain) | Poplar1VerifierState::decode_with_param: every explicit capacity request (Vec::with_capacity) made while decoding is bounded by the bytes actually supplied (allocation proportional to the input, never to a length header); the decoder returns Ok or Err, no panic
+//@harness pop_verifier_state_alloc_budget | bounded(inputs of 6 and 14 bytes; length header in {0, 1, 2, 2^20, 2^24, 2^32-1}; payload bytes symbolic) | Poplar1VerifierState::decode_with_param: every explicit capacity request (Vec::with_capacity) made while decoding is bounded by the bytes actually supplied (allocation proportional to the input, never to a length header); the decoder returns Ok or Err, no panic
 // Allocation contract: Vec::with_capacity is replaced by its contract stub: requires cap * size_of::<T>() <= BUDGET (a ghost
 // set by the harness to a constant multiple of the input length), ensures an empty vector (capacity is only a hint).
 #[cfg(kani)]
@@ -20,24 +20,34 @@ mod verif_c08_alloc {
         Vec::new()
     }
 
+    fn budget_case<const N: usize>(header: u32) {
+        let vdaf: Poplar1<XofTurboShake128, 32> = Poplar1::new(4);
+        let mut b: [u8; N] = kani::any();
+        b[0] = 0; b[1] = 1;                               // inner level, round two: the shortest path to the length header
+        let h = header.to_be_bytes();
+        b[2] = h[0]; b[3] = h[1]; b[4] = h[2]; b[5] = h[3];
+        unsafe { ALLOC_BUDGET = 8 * N + 64; ALLOC_REQUESTS = 0; }
+        let mut c = Cursor::new(&b[..]);
+        let r = Poplar1VerifierState::decode_with_param(&(&vdaf, 0usize), &mut c);
+        // N == 6: no payload; N == 14: exactly one Field64 element follows the header
+        let fits = (N == 6 && header == 0) || (N == 14 && header == 1);
+        if !fits && header as usize * 8 > N - 6 { assert!(r.is_err()); }
+        if let Ok(st) = &r { match &st.0 { VerifierStateVariant::Inner(s) => assert!(s.output_share.len() == header as usize), _ => assert!(false) } }
+        kani::cover!(r.is_err());
+        forget(r); forget(vdaf);
+    }
+
     #[kani::proof]
     #[kani::unwind(20)]
     #[kani::stub(<crate::fp::FP64 as crate::fp::FieldOps<u64>>::mul, crate::verif_common::mul64_id_stub)]
     #[kani::stub(alloc::vec::Vec::with_capacity, with_capacity_contract)]
     #[kani::stub(alloc::fmt::format, crate::verif_common::format_stub)]
     fn pop_verifier_state_alloc_budget() {
-        let vdaf: Poplar1<XofTurboShake128, 32> = Poplar1::new(4);
-        let b: [u8; 14] = kani::any();
-        let n: usize = kani::any();
-        kani::assume(n <= 14);
-        kani::assume(b[0] == 0 && b[1] == 1);          // inner level, round two: the shortest path to the length header
-        unsafe { ALLOC_BUDGET = 8 * n + 64; ALLOC_REQUESTS = 0; }
-        let mut c = Cursor::new(&b[..n]);
-        let r = Poplar1VerifierState::decode_with_param(&(&vdaf, 0usize), &mut c);
-        // at most one element fits in the remaining 8 bytes
-        if let Ok(st) = &r { match &st.0 { VerifierStateVariant::Inner(s) => assert!(s.output_share.len() <= 1), _ => assert!(false) } }
-        kani::cover!(r.is_ok());
-        kani::cover!(r.is_err());
-        forget(r); forget(vdaf);
+        let k: u8 = kani::any();
+        kani::assume(k < 8);
+        match k {
+            0 => budget_case::<6>(0), 1 => budget_case::<6>(1), 2 => budget_case::<6>(1 << 20), 3 => budget_case::<6>(u32::MAX),
+            4 => budget_case::<14>(1), 5 => budget_case::<14>(2), 6 => budget_case::<14>(1 << 24), _ => budget_case::<14>(u32::MAX),
+        }
     }
 }
